@@ -749,6 +749,8 @@ def forwarder_target(b, bodies, allow_neg=False):
                     rv = s['rv']
                     if rv['k'] == 'use' and rv['o'].get('k') in ('copy', 'move') and not rv['o']['p']['p'] and rv['o']['p']['l'] == t['dest']['l']:
                         moved = True
+                    elif rv['k'] == 'use' and rv['o'].get('k') == 'const' and rv['o'].get('ty') == '()':
+                        moved = True  # a unit result: `unsafe fn unlock(&self) { self.release() }`
                     elif allow_neg and rv['k'] == 'un' and rv.get('op') == 'Not' and rv['a'].get('k') in ('copy', 'move') and not rv['a']['p']['p'] \
                             and rv['a']['p']['l'] == t['dest']['l']:
                         moved = True
